@@ -185,7 +185,7 @@ def interrupt_sticky_rule(F, R):
         n += 1
         loads = [b for _, b in f.calls() if re.search(r"AtomicCell<T>\}::load$", b["callee"]) and b["targs"] and
                  "ThreadState" in b["targs"][0]]
-        cmp_int = bool(loads) and (bool(f.call_blocks(r"PartialEq<ThreadState> for ThreadState\}::(eq|ne)$")) or
+        cmp_int = bool(loads) and (bool(f.call_blocks(r"PartialEq<ThreadState> for ThreadState\}::(eq|ne)$", wrappers=True)) or
                                    bool(lib.enum_switches(f, "ThreadState")))
         R.inst("C17.f", "ThreadStateController::%s preserves a pending interrupt" % nm, not stores and bool(cas) and cmp_int,
                "ThreadStateController::%s stores a thread state unconditionally (AtomicCell::store) instead of exchanging it "
